@@ -86,10 +86,11 @@ Proof.
     split; [destruct K as [K|K]; unfold lit_sem; rewrite K; reflexivity|].
     unfold sv_lit, PatternSyntax.visit_terminal. destruct K as [K|K]; rewrite K; unfold int_tok; cbn [tx]; rewrite py_int_dec; reflexivity.
   - (* float *)
+    apply andb_true_iff in H. destruct H as [H Hsh].
     pose proof (proj1 (fnorm_b_spec f) H) as Hn.
     destruct (float_print_parse f Hn) as [P [K O]]. fold (float_tok f).
     split; [apply kind_in_make; [destruct K as [K|K]; rewrite K; reflexivity|exact O]|].
-    split; [destruct K as [K|K]; unfold lit_sem; rewrite K; reflexivity|].
+    split; [destruct K as [K|K]; unfold lit_sem; rewrite K; unfold float_tok; cbn [tx]; rewrite P; exact Hsh|].
     unfold sv_lit, PatternSyntax.visit_terminal. destruct K as [K|K]; rewrite K; unfold float_tok; cbn [tx]; rewrite P; reflexivity.
   - (* bool *)
     split; [apply kind_in_make; [reflexivity|destruct b; reflexivity]|]. split; [reflexivity|]. destruct b; reflexivity.
